@@ -203,6 +203,31 @@ Theorem C14_oom_exact_ite : forall gt C cget cadd, lossy cget cadd ->
 Proof. exact oom_exact_ite. Qed.
 Print Assumptions C14_oom_exact_ite.
 
+(** whether the operation fails does not depend on the recursor *)
+Theorem C14_oom_outcome_recursor_indep_not : forall C cget cadd, lossy cget cadd ->
+  forall cap par par' fuel s (c : C) f,
+  BddOK s -> CacheOK cget s c -> ref_ok s f -> S (nlevels s) <= fuel ->
+  res_code (apply_not_c C cget cadd cap par fuel s c f) =
+  res_code (apply_not_c C cget cadd cap par' fuel s c f).
+Proof. exact oom_outcome_recursor_indep_not. Qed.
+Print Assumptions C14_oom_outcome_recursor_indep_not.
+
+Theorem C14_oom_outcome_recursor_indep_bin : forall gt C cget cadd, lossy cget cadd ->
+  forall cap par par' op fuel s (c : C) f g,
+  BddOK s -> CacheOK cget s c -> ref_ok s f -> ref_ok s g -> S (nlevels s) <= fuel ->
+  res_code (apply_bin_c gt C cget cadd cap par fuel s c op f g) =
+  res_code (apply_bin_c gt C cget cadd cap par' fuel s c op f g).
+Proof. exact oom_outcome_recursor_indep_bin. Qed.
+Print Assumptions C14_oom_outcome_recursor_indep_bin.
+
+Theorem C14_oom_outcome_recursor_indep_ite : forall gt C cget cadd, lossy cget cadd ->
+  forall cap par par' fuel s (c : C) f g h,
+  BddOK s -> CacheOK cget s c -> ref_ok s f -> ref_ok s g -> ref_ok s h -> S (nlevels s) <= fuel ->
+  res_code (apply_ite_c gt C cget cadd cap par fuel s c f g h) =
+  res_code (apply_ite_c gt C cget cadd cap par' fuel s c f g h).
+Proof. exact oom_outcome_recursor_indep_ite. Qed.
+Print Assumptions C14_oom_outcome_recursor_indep_ite.
+
 (** ** 5. retry and monotonicity (no hypothesis): whenever the table of the
     unbounded run fits, the bounded run succeeds with exactly that result; a
     success with capacity [cap] is the same success with every [cap' >= cap],
